@@ -173,7 +173,9 @@ def replace_zeros(pmf, delta, rand=True, prng=None):
 
     d = pmf.copy()
     d[nonzero] += replacements
-    d[~nonzero] *= 1 - replacements.sum()
+    # Each distribution gives up the mass its own zeros received.
+    added = np.where(nonzero, d, 0).sum(axis=-1, keepdims=True)
+    d = np.where(nonzero, d, d * (1 - added))
 
     return d
 
